@@ -1,66 +1,129 @@
 ---- MODULE TracePcaSpectral ----
 (* Trace specification for C02 (spectral correctness and equivariance of PCA()), recorded by c02_drv.c.              *)
-(* One case = Reset, Case, Spectrum, Oracle, Axis x npc, Pair x 2..3, Scale x 1..2.                                   *)
+(* One case = Reset, Case, Spectrum, [Loc], Oracle, [Kern x 2], Stop x npc, Axis x npc, Pair x 2..3, Scale x 1..2,     *)
+(*            [Hist], [Prep], [Reuse].                                                                              *)
 (* From the logged true spectrum TLC computes how many leading components the property speaks about (up to the first  *)
 (* squared singular ratio > 0.7225) and the criterion-implied bound of each (LedgerArith BoundsPT, K = KK); a component  *)
 (* is accepted only if it sits on the true axis of the same index, carries its eigenvalue within TolEig and its score  *)
 (* and loading errors are within the bound; paired runs must agree within twice the bound.                            *)
+(* Location class (K3): the Loc event carries what one ulp of the column locations means for the preprocessed matrix  *)
+(* (from the input alone); the bounds then come from Pca!BoundsPTL, the eigenvalue tolerances get the same term.  A    *)
+(* case outside that class carries no Loc event and is judged with exactly the bounds it always had.                 *)
+(* Layers: Prop (the statement of C02), Impl (how the present code does it: slices of the MT kernels, the stopping     *)
+(* rule as coded, bit-identical refits; switched off by PropOnly), Ext (Prep, Reuse: behaviour the statement does not  *)
+(* cover; the check validates those events in a trace of their own and reports rejections as extra findings).        *)
 EXTENDS Pca, TraceBase
 CONSTANT PropOnly
-VARIABLES l, sn, ncmp, bndT, bndP, sig, sphase
-tvars == <<lvars, svars, l, sn, ncmp, bndT, bndP, sig, sphase>>
+VARIABLES l, sn, ncmp, bndT, bndP, sig, sphase, cse, locb
+tvars == <<lvars, svars, l, sn, ncmp, bndT, bndP, sig, sphase, cse, locb>>
 Ev == Tr[l]
 Step == l' = l + 1 /\ UNCHANGED svars /\ UNCHANGED lvars
 
 MaxCmp == 6
 MinS == 1000                          \* spectrum entries below 1e-6 of the largest are not resolved by the 1e-9 quantisation
 OracleTol == 1000000                  \* the two oracles (and the construction) agree to 1e-6 of lambda_1 (1e-12 units); observed <= 1e-12
+MaxRatio == 200000000                 \* K3: |mean|/sdev of a column up to 1e8 (2e8 with the rounding of the generator)
+PrepTol == 1000                       \* Ext: stored column statistics agree with the long-double ones to 1e-6 (relative)
+ConvCrit13 == 1000                    \* PCACONVERGENCE = 1e-10 in the 1e-13 units of the Stop event
 (* eigenvalue tolerance relative to the eigenvalue itself: TolEig's relative part + its absolute part 1e-9*ss0 (ss0 <= entries * lambda_1) *)
 EvTol9(nn, s2k, entries) == RelEig9(nn) + (entries + 1) * (One \div s2k) + 2
+EvTolL(kk) == SatAdd(Min2(EvTol9(sn, sig[kk], Len(sig)), Cap), LocK9(sig, kk, locb))
+NoCase == [n |-> 2, c |-> 1, scaling |-> 0, nproc |-> 1, loc |-> 0, deg |-> 0, hist |-> 0, src |-> "svd"]
 
-TInit == /\ l = 1 /\ LInit /\ spectrum = {} /\ remaining = {} /\ extracted = <<>> /\ shape = <<0, 0>>
-         /\ sn = 2 /\ ncmp = 0 /\ bndT = <<>> /\ bndP = <<>> /\ sig = <<>> /\ sphase = "Idle"
+TInit == /\ l = 1 /\ LInit /\ spectrum = {} /\ remaining = {} /\ extracted = <<>> /\ shape = <<0, 0, 1>>
+         /\ sn = 2 /\ ncmp = 0 /\ bndT = <<>> /\ bndP = <<>> /\ sig = <<>> /\ sphase = "Idle" /\ cse = NoCase /\ locb = 0
 
 TReset == /\ l <= Len(Tr) /\ Ev.e = "Reset" /\ Step
           /\ sphase \in {"Idle", "Body"}
-          /\ sphase' = "Idle" /\ ncmp' = 0 /\ bndT' = <<>> /\ bndP' = <<>> /\ sig' = <<>> /\ UNCHANGED sn
+          /\ sphase' = "Idle" /\ ncmp' = 0 /\ bndT' = <<>> /\ bndP' = <<>> /\ sig' = <<>> /\ cse' = NoCase /\ locb' = 0 /\ UNCHANGED sn
 TDropped == /\ l <= Len(Tr) /\ Ev.e = "Dropped" /\ Step /\ sphase \in {"Idle", "Case"}
-            /\ sphase' = "Idle" /\ UNCHANGED <<sn, ncmp, bndT, bndP, sig>>
+            /\ sphase' = "Idle" /\ UNCHANGED <<sn, ncmp, bndT, bndP, sig, cse, locb>>
+(* the generator stays inside the quantifier (a rejection here is the check's fault, never the library's) *)
+UncentredOffsets(ev) == ev.scaling = -1 /\ ev.src = "jacobi"
+NeedsLoc(ev) == ev.loc > 0 \/ UncentredOffsets(ev)
 TCase == /\ l <= Len(Tr) /\ Ev.e = "Case" /\ Step /\ sphase = "Idle"
-         /\ Ev.n \in 2..60 /\ Ev.c \in 1..25 /\ Ev.scaling \in -1..5 /\ Ev.L >= 1 /\ Ev.L <= Min2(Ev.n - 1, Ev.c)
-         /\ sn' = Ev.n /\ sphase' = "Case" /\ UNCHANGED <<ncmp, bndT, bndP, sig>>
+         /\ Ev.n \in 2..130 /\ Ev.c \in 1..70 /\ Ev.scaling \in -1..5 /\ Ev.L >= 1 /\ Ev.L <= Min2(Ev.n - 1, Ev.c)
+         /\ Ev.nproc \in 1..64 /\ Ev.loc \in ({0} \cup 3..8) /\ Ev.deg \in 0..4 /\ Ev.hist \in {0, 1} /\ Ev.src \in {"svd", "jacobi"}
+         /\ (Ev.loc > 0 => Ev.src = "jacobi" /\ Ev.deg = 0)           \* the construction is not the truth of a matrix stored with 8 digits of spread
+         /\ (Ev.scaling >= 1 => Ev.src = "jacobi")
+         /\ sn' = Ev.n /\ sphase' = "Case"
+         /\ cse' = [n |-> Ev.n, c |-> Ev.c, scaling |-> Ev.scaling, nproc |-> Ev.nproc, loc |-> Ev.loc, deg |-> Ev.deg, hist |-> Ev.hist, src |-> Ev.src]
+         /\ UNCHANGED <<ncmp, bndT, bndP, sig, locb>>
 TSpectrum == /\ l <= Len(Tr) /\ Ev.e = "Spectrum" /\ Step /\ sphase = "Case"
              /\ Len(Ev.sig2) >= 1 /\ Ev.sig2[1] = One
              /\ \A i \in 2..Len(Ev.sig2) : Ev.sig2[i] >= 0 /\ Ev.sig2[i] <= Ev.sig2[i-1]          \* the oracle's spectrum is descending
              /\ LET m == NCmp(Ev.sig2, 1, MinS, MaxCmp)
                     b == BoundsPT(Ev.sig2, KK * EpsPca9(sn), m)
                 IN ncmp' = m /\ bndT' = b.t /\ bndP' = b.p
-             /\ sig' = Ev.sig2 /\ sphase' = "Spectrum" /\ UNCHANGED sn
+             /\ sig' = Ev.sig2 /\ sphase' = (IF NeedsLoc(cse) THEN "NeedLoc" ELSE "Spectrum") /\ UNCHANGED <<sn, cse, locb>>
+(* K3: the bounds of this case get the location term the spec computes from the logged representability of the input *)
+TLoc == /\ l <= Len(Tr) /\ Ev.e = "Loc" /\ Step /\ sphase = "NeedLoc"
+        /\ Ev.loc12 >= 0 /\ Ev.ratio >= 0 /\ Ev.ratio <= MaxRatio
+        /\ LET lb == LocBase9(sn, Ev.loc12)
+               b  == BoundsPTL(sig, KK * EpsPca9(sn), ncmp, lb)
+           IN locb' = lb /\ bndT' = b.t /\ bndP' = b.p
+        /\ sphase' = "Spectrum" /\ UNCHANGED <<sn, ncmp, sig, cse>>
 TOracle == /\ l <= Len(Tr) /\ Ev.e = "Oracle" /\ Step /\ sphase = "Spectrum"
            /\ Ev.err <= OracleTol
-           /\ sphase' = "Body" /\ UNCHANGED <<sn, ncmp, bndT, bndP, sig>>
+           /\ sphase' = "Body" /\ UNCHANGED <<sn, ncmp, bndT, bndP, sig, cse, locb>>
+
+Same == UNCHANGED <<sn, ncmp, bndT, bndP, sig, sphase, cse, locb>>
+
+(* Impl: the first call of each MT kernel in the fit under test hands every column (site vm) / row (site mv) to exactly one of nproc workers *)
+EvSlices(ev) == [w \in 1..Len(ev.from) |-> <<ev.from[w], ev.to[w]>>]
+ImplKern(ev) == /\ ev.np = cse.nproc /\ Len(ev.from) = ev.np /\ Len(ev.to) = ev.np /\ ev.calls >= 1
+                /\ ev.len = (IF ev.site = "vm" THEN cse.c ELSE cse.n)
+                /\ SliceCover(EvSlices(ev), ev.len)
+TKern == /\ l <= Len(Tr) /\ Ev.e = "Kern" /\ Step /\ sphase = "Body"
+         /\ Ev.site \in {"vm", "mv"} /\ cse.nproc > 1
+         /\ (PropOnly \/ ImplKern(Ev))
+         /\ Same
+(* Impl: the loop of a compared component stops at the first iteration whose criterion value is below 1e-10 *)
+(* and the first component starts from the column of E with the largest sum of squares (pca.c Step 1; 1e-6 + the location term)              *)
+StartTol == 1000
+ImplStop(ev) == /\ ev.k <= ncmp => ev.its >= 1 /\ ev.conv <= ConvCrit13 /\ (ev.its >= 2 => ev.prev >= ConvCrit13)
+                /\ (ev.k = 1 /\ ncmp >= 1) => ev.start <= SatAdd(StartTol, LocK9(sig, 1, locb))
+TStop == /\ l <= Len(Tr) /\ Ev.e = "Stop" /\ Step /\ sphase = "Body"
+         /\ Ev.k >= 1
+         /\ (PropOnly \/ ImplStop(Ev))
+         /\ Same
 
 PropAxisOrder(ev) == ev.match = ev.k
-PropAxisEigen(ev) == /\ ev.evalErr <= EvTol9(sn, sig[ev.k], Len(sig))
-                     /\ ev.vErr <= EvTol9(sn, sig[ev.k], Len(sig))
+PropAxisEigen(ev) == /\ ev.evalErr <= EvTolL(ev.k)
+                     /\ ev.vErr <= EvTolL(ev.k)
 PropAxisBound(ev) == ev.terr <= bndT[ev.k] /\ ev.perr <= bndP[ev.k]
 TAxis == /\ l <= Len(Tr) /\ Ev.e = "Axis" /\ Step /\ sphase = "Body"
          /\ Ev.k >= 1
          /\ (Ev.k <= ncmp => PropAxisOrder(Ev) /\ PropAxisEigen(Ev) /\ PropAxisBound(Ev))
-         /\ UNCHANGED <<sn, ncmp, bndT, bndP, sig, sphase>>
+         /\ Same
 
 (* paired runs: both runs are within bound_k of the same truth, hence within 2 bound_k of each other *)
 Within2(errs, b) == \A i \in 1..Min2(ncmp, Len(errs)) : errs[i] <= 2 * b[i]
 TPair == /\ l <= Len(Tr) /\ Ev.e = "Pair" /\ Step /\ sphase = "Body"
          /\ Ev.kind \in {"rowperm", "colperm", "rot"}
          /\ Within2(Ev.terr, bndT) /\ Within2(Ev.perr, bndP)
-         /\ UNCHANGED <<sn, ncmp, bndT, bndP, sig, sphase>>
+         /\ Same
 TScale == /\ l <= Len(Tr) /\ Ev.e = "Scale" /\ Step /\ sphase = "Body"
           /\ Within2(Ev.terr, bndT) /\ Within2(Ev.perr, bndP)
-          /\ \A i \in 1..Min2(ncmp, Len(Ev.verr)) : Ev.verr[i] <= 2 * EvTol9(sn, sig[i], Len(sig))
-          /\ UNCHANGED <<sn, ncmp, bndT, bndP, sig, sphase>>
+          /\ \A i \in 1..Min2(ncmp, Len(Ev.verr)) : Ev.verr[i] <= 2 * EvTolL(i)
+          /\ Same
+(* K7: the same fit repeated after fits of other shapes / data in the same process: within twice the bound (Prop), bit-identical (Impl) *)
+THist == /\ l <= Len(Tr) /\ Ev.e = "Hist" /\ Step /\ sphase = "Body"
+         /\ cse.hist = 1
+         /\ Within2(Ev.terr, bndT) /\ Within2(Ev.perr, bndP)
+         /\ (PropOnly \/ Ev.same = 1)
+         /\ Same
+(* Ext (outside the statement of C02): the statistics the model stores; a fit into a model that already holds one *)
+TPrep == /\ l <= Len(Tr) /\ Ev.e = "Prep" /\ Step /\ sphase = "Body"
+         /\ Ev.avgErr <= PrepTol /\ Ev.sclErr <= PrepTol
+         /\ Same
+TReuse == /\ l <= Len(Tr) /\ Ev.e = "Reuse" /\ Step /\ sphase = "Body"
+          /\ cse.hist = 1
+          /\ Within2(Ev.terr, bndT) /\ Within2(Ev.perr, bndP)
+          /\ Ev.vlen = Len(Ev.terr)                                   \* one explained variance per component, not appended to the old ones
+          /\ Same
 
-TNext == TReset \/ TDropped \/ TCase \/ TSpectrum \/ TOracle \/ TAxis \/ TPair \/ TScale
+TNext == TReset \/ TDropped \/ TCase \/ TSpectrum \/ TLoc \/ TOracle \/ TKern \/ TStop \/ TAxis \/ TPair \/ TScale \/ THist \/ TPrep \/ TReuse
 TSpec == TInit /\ [][TNext]_tvars
 TraceAccepted == Accepted
 Diag == ShowCursor(l)
